@@ -271,6 +271,34 @@ impl Check for C19 {
     }
 
     fn gen(&mut self, rng: &mut Prng, _idx: u64, _tier: Tier) -> Value {
+        if rng.chance(1, 16) {
+            // in-memory user_input of the embedding API (own machine per case)
+            let cs: Vec<u32> = (0..rng.range(0, 40)).map(|_| *rng.pick(CHARS)).collect();
+            let mut rops: Vec<Value> = vec![];
+            for _ in 0..rng.range(3, 20) {
+                let r = rng.below(100);
+                rops.push(if r < 25 {
+                    json!({"op": "gc"})
+                } else if r < 42 {
+                    json!({"op": "pk"})
+                } else if r < 50 {
+                    json!({"op": "gcode"})
+                } else if r < 56 {
+                    json!({"op": "pcode"})
+                } else if r < 68 {
+                    json!({"op": "gn", "n": rng.range(0, 9)})
+                } else if r < 76 {
+                    json!({"op": "gl"})
+                } else if r < 86 {
+                    json!({"op": "eos"})
+                } else if r < 94 {
+                    json!({"op": "pos"})
+                } else {
+                    json!({"op": "eosp"})
+                });
+            }
+            return json!({"mem": if rng.chance(1, 2) { "static" } else { "owned" }, "codes": cs, "rops": rops, "eof_action": "eof_code"});
+        }
         let binary = rng.chance(1, 4);
         let big = rng.chance(1, 12);
         // payload as a write plan
@@ -379,6 +407,9 @@ impl Check for C19 {
     }
 
     fn exec(&mut self, case: &Value) -> Outcome {
+        if case["mem"].is_string() {
+            return exec_mem(case);
+        }
         let mut out = Outcome::default();
         let mut m = match self.m.take() {
             Some(m) if m.alive() => m,
@@ -578,4 +609,74 @@ impl Check for C19 {
             ],
         })
     }
+}
+
+
+/// in-memory `user_input` (string configuration of the embedding API): same read model, one
+/// machine per case, no file and no short reads
+fn exec_mem(case: &Value) -> Outcome {
+    let mut out = Outcome::default();
+    let codes = codes_of(&case["codes"]);
+    let text: String = codes.iter().filter_map(|c| char::from_u32(*c)).collect();
+    let rops = case["rops"].as_array().cloned().unwrap_or_default();
+    let as_static = case["mem"] == "static";
+    let mut h = 0xcbf29ce484222325u64;
+    let mut m = Mach::with_input_string(text.clone(), as_static);
+    let mut off = 0u64;
+    let units: Vec<(i64, u64)> = codes
+        .iter()
+        .map(|c| {
+            let o = off;
+            off += char::from_u32(*c).map(|ch| ch.len_utf8()).unwrap_or(1) as u64;
+            (*c as i64, o)
+        })
+        .collect();
+    let mut model = RModel { units, total_bytes: text.len() as u64, cur: 0, past: false, lines: 0, saved: vec![], eof_action: "eof_code".into() };
+    let mut expect: Vec<Exp> = vec![];
+    for op in rops.iter() {
+        // what an in-memory stream does once it has reported end-of-file is not asserted
+        if model.past {
+            break;
+        }
+        match model.step(op) {
+            Some(e) => expect.push(e),
+            None => break,
+        }
+    }
+    let rtxt: Vec<String> = rops.iter().map(rop_text).collect();
+    let q = format!("c19_rops([{}], user_input, [], Rs).", rtxt.join(","));
+    hash_bytes(&mut h, format!("{:?}{}", codes, q).as_bytes());
+    vh::set_tick_budget(vh::ticks() + 20_000_000);
+    let r = m.all(&q);
+    vh::set_tick_budget(u64::MAX);
+    out.bump("in_memory_input_cases", 1);
+    let what = if as_static { "static-string user_input" } else { "owned-string user_input" };
+    if let Some(p) = &r.panic {
+        let class = if p.contains("TickBudgetExceeded") { "hang" } else { "panic" };
+        out.violate(class, format!("mem:{}", panic_key(p)), format!("{what} {:?}: `{q}`: {p}", text));
+        return out;
+    }
+    let rs = match r.items.first() {
+        Some(Ans::Bind(b)) => parse_results(b.replace('"', "").trim_start_matches("Rs=")),
+        other => {
+            out.violate("wrong-outcome", "mem:read-phase-failed", format!("{what} {:?}: `{q}` gave {:?}", text, other.map(|a| a.text())));
+            return out;
+        }
+    };
+    hash_bytes(&mut h, rs.join(",").as_bytes());
+    out.hash = h;
+    out.transcript = format!("{what} {:?}\n{q}\n => [{}]", text, rs.join(","));
+    let mut lines_issue = false;
+    for (i, e) in expect.iter().enumerate() {
+        let got = rs.get(i).cloned().unwrap_or_default();
+        if !exp_matches(e, &got, &mut lines_issue) {
+            out.violate("read-back", "mem:result-differs", format!("{what} {:?}\n `{q}`\n operation {i} ({}) gave {got}, the byte-buffer model gives {:?}\n all results [{}]", text, rtxt[i], e, rs.join(",")));
+            return out;
+        }
+    }
+    if lines_issue {
+        out.violate("line-count", "lines-read-ignores-character-reads", format!("{what} {:?}\n `{q}`\n results [{}]", text, rs.join(",")));
+    }
+    out.bump("read_ops_checked_against_model", expect.len() as u64);
+    out
 }
